@@ -4,6 +4,7 @@
   touch C17's obligation and vice versa.
 -/
 import Hidi.Gen.Bodies
+set_option linter.unusedSimpArgs false
 namespace Hidi.BodiesTie
 open Hidi Hidi.GoLite Hidi.Gen
 
